@@ -178,7 +178,7 @@ func (g *G) setup() {
 		g.randPowers()
 	}
 	if g.p.Rewards && r.P(2, 3) {
-		g.emit("fundpool %d =uusdc", rng.Pick(r, []int{5, 7, 100, 1001, 99999}))
+		g.emit("fundpool %s =uusdc", rng.Pick(r, []string{"5", "7", "100", "1001", "99999", "3000000", "2000003", "6000000000000000000"}))
 	}
 	nt := 1
 	if g.p.MultiTenant {
@@ -437,6 +437,13 @@ func (g *G) record(t *tenant) {
 	}
 	g.emit("record %s %d %s %d %s %s %s %s", g.sender(t), tid, e(req), amt, e(denom), e(chain), e(contract), e(token))
 	t.pending = append(t.pending, req)
+	if (req == "" || req == "shared") && r.P(2, 3) {
+		// the same request id again, at once: the empty string is a request id like any other
+		g.emit("record %s %d %s %d %s %s %s %s", t.admins[0], t.id, e(req), amt, e(denom), e(chain), e(contract), e(token))
+		if r.P(1, 2) {
+			g.emit("cancel %s %d %s", t.admins[0], t.id, e(req))
+		}
+	}
 }
 
 func (g *G) adminOp() {
